@@ -26,4 +26,39 @@ func init() {
 		}
 		flateReaderPool.New = n
 	}
+	census := func(get func() interface{}, put func(interface{})) int {
+		var got []interface{}
+		dup := 0
+		for {
+			v := get()
+			if v == nil {
+				break
+			}
+			for _, o := range got {
+				if o == v {
+					dup++
+					break
+				}
+			}
+			got = append(got, v)
+		}
+		for _, v := range got {
+			put(v)
+		}
+		return dup
+	}
+	verifPoolCensus = func() (writers, readers int) {
+		for i := range flateWriterPools {
+			p := &flateWriterPools[i]
+			n := p.New
+			p.New = nil
+			writers += census(p.Get, p.Put)
+			p.New = n
+		}
+		n := flateReaderPool.New
+		flateReaderPool.New = nil
+		readers = census(flateReaderPool.Get, flateReaderPool.Put)
+		flateReaderPool.New = n
+		return
+	}
 }
